@@ -63,7 +63,7 @@ type Ctl struct {
 }
 
 func NewCtl() *Ctl {
-	return &Ctl{byGoid: map[uint64]*Thread{}, byName: map[string]*Thread{}, Timeout: 4 * time.Second}
+	return &Ctl{byGoid: map[uint64]*Thread{}, byName: map[string]*Thread{}, Timeout: 8 * time.Second}
 }
 
 func (c *Ctl) logf(f string, a ...any) {
